@@ -7,7 +7,9 @@ wildcard or index, store on/off, one to three files per database) are run on the
 `Qats.ReadBind.step` (`rb.run`); after every operation the outcome (error kind / keys, names, time and data arrays in container
 order) and the set of cached keys are compared.
 Search (independent of the model): "the value at (name, sample i) is what the generator wrote" for every returned series whose
-identity is known by construction (full container key, exact unique name, register index), completeness and order of simple
+identity is known by construction (full container key, exact unique name, register index), "every name stored in a file is
+registered, in file order" after each load (names include ones that begin with / contain a word special elsewhere in the format;
+.h5 data sets and .tdms waveform channels of one file agree in start only / step only / both / neither), completeness and order of simple
 requests, and all non-empty ordered subsets of the names of a file under three cache states.
 """
 import itertools
